@@ -34,6 +34,22 @@ func runC18(p *load.Program, r *oblig.Report) {
 
 // authGate finds, in fn, the block taken when the configured-SASL test is true, and the success successor of the
 // test made on the error returned by the authentication call.
+// authTest: the block that tests the result of the authentication call and the index of its err == nil successor.
+type authTest struct {
+	blk   *ssa.BasicBlock
+	okIdx int
+}
+
+var authTests = map[*ssa.Function]authTest{}
+
+// notOkEdge forbids the err == nil edge of the authentication test: what is reachable under it is reachable without
+// a successful authentication (the block after the test is often a join that other paths reach too, so stopping at
+// that block would hide them).
+func notOkEdge(fn *ssa.Function) an.EdgeFilter {
+	t := authTests[fn]
+	return func(from *ssa.BasicBlock, si int) bool { return !(from == t.blk && si == t.okIdx) }
+}
+
 func authGate(fn *ssa.Function, authName string) (saslOn *ssa.BasicBlock, okEdge *ssa.BasicBlock, failEdge *ssa.BasicBlock, authCall *ssa.Call, why string) {
 	an.EachInstr(fn, func(ins ssa.Instruction) {
 		if call, ok := ins.(*ssa.Call); ok {
@@ -70,6 +86,10 @@ func authGate(fn *ssa.Function, authName string) (saslOn *ssa.BasicBlock, okEdge
 		} else if ci.Op == token.EQL {
 			okEdge, failEdge = b.Succs[0], b.Succs[1]
 		}
+		if e := ci.Edge(token.EQL); e >= 0 {
+			failEdge, okEdge = b.Succs[1-e], b.Succs[e]
+		}
+		authTests[fn] = authTest{b, ci.Edge(token.EQL)}
 	}
 	// the If that tests the configured mechanism (x.SASLMechanism != nil / pool.sasl != nil)
 	for _, b := range an.Blocks(fn) {
@@ -112,7 +132,7 @@ func c18Dialer(p *load.Program, r *oblig.Report) {
 		return
 	}
 	q := an.PathQuery{Fn: fn,
-		Stop: func(i ssa.Instruction) bool { return len(okEdge.Instrs) > 0 && i == okEdge.Instrs[0] },
+		Edge: notOkEdge(fn),
 		Target: func(i ssa.Instruction) bool {
 			ret, ok := i.(*ssa.Return)
 			return ok && len(ret.Results) == 2 && !an.IsNilConst(an.RetVal(ret, 0))
@@ -189,7 +209,7 @@ func c18Transport(p *load.Program, r *oblig.Report) {
 		return
 	}
 	q := an.PathQuery{Fn: fn,
-		Stop: func(i ssa.Instruction) bool { return len(okEdge.Instrs) > 0 && i == okEdge.Instrs[0] },
+		Edge: notOkEdge(fn),
 		Target: func(i ssa.Instruction) bool {
 			switch x := i.(type) {
 			case *ssa.Go:
@@ -646,8 +666,64 @@ func c18Loops(p *load.Program, r *oblig.Report) {
 	}
 }
 
+// c18MechanismShared: one Mechanism value is configured once and used for every connection the Dialer or Transport
+// opens, concurrently. The per-connection state of an exchange therefore lives in the StateMachine that Start
+// returns, never in the mechanism: Start (and Next, when the mechanism is its own state machine) do not write
+// through the receiver.
+func c18MechanismShared(p *load.Program, r *oblig.Report) {
+	const rule = "C18.R6 a mechanism keeps no per-connection state"
+	n := 0
+	var bad []string
+	for _, rel := range []string{"sasl/scram", "sasl/plain"} {
+		for _, fn := range pkgFuncs(p, rel) {
+			if fn.Signature.Recv() == nil || fn.Parent() != nil {
+				continue
+			}
+			name := an.RefFuncName(fn)
+			if name != "Start" && name != "Next" {
+				continue
+			}
+			// is the receiver type a Mechanism (does it have Start)?
+			recvT := fn.Signature.Recv().Type()
+			ms := p.Prog.MethodSets.MethodSet(recvT)
+			if ms.Lookup(fn.Pkg.Pkg, "Start") == nil && ms.Lookup(nil, "Start") == nil {
+				continue
+			}
+			n++
+			if _, isPtr := recvT.Underlying().(*types.Pointer); !isPtr {
+				continue // a value receiver works on its own copy
+			}
+			recv := fn.Params[0]
+			var rooted func(v ssa.Value, depth int) bool
+			rooted = func(v ssa.Value, depth int) bool {
+				if depth > 6 {
+					return false
+				}
+				switch x := v.(type) {
+				case *ssa.Parameter:
+					return x == recv
+				case *ssa.FieldAddr:
+					return rooted(x.X, depth+1)
+				case *ssa.IndexAddr:
+					return rooted(x.X, depth+1)
+				}
+				return false
+			}
+			an.EachInstr(fn, func(ins ssa.Instruction) {
+				if st, ok := ins.(*ssa.Store); ok && rooted(st.Addr, 0) {
+					bad = append(bad, an.ShortFunc(fn)+" writes "+clean(an.Shape(st.Addr))+" at "+p.Pos(st.Pos()))
+				}
+			})
+		}
+	}
+	sort.Strings(bad)
+	r.Check(n >= 2 && len(bad) == 0, rule, "sasl/scram and sasl/plain: Start and Next never write through a mechanism receiver", "-",
+		"the conversation lives in the state machine returned by Start", strings.Join(bad, "; "))
+}
+
 func c18Mechanisms(p *load.Program, r *oblig.Report) {
 	const rule = "C18.R5 mechanism constructors"
+	c18MechanismShared(p, r)
 	fn := p.Func("sasl/scram", "Mechanism")
 	if fn == nil {
 		r.Lost(rule, "sasl/scram.Mechanism")
